@@ -121,3 +121,142 @@ theorem neverAssigned_reported (g : Cfg) (i j : Nat) (hi : i < g.nodes.size)
   simp
 
 end Rva
+
+namespace Rva
+
+/-- a straight line: every node of the list has the next one as its only successor -/
+def Chain (g : Cfg) : List Nat → Prop
+  | [] => True
+  | [_] => True
+  | a :: b :: rest => (g.get a).nexts = [b] ∧ Chain g (b :: rest)
+
+/-- the first node of the line `path ++ [last]` -/
+def hdOf (path : List Nat) (last : Nat) : Nat :=
+  match path with
+  | [] => last
+  | p :: _ => p
+
+theorem chain_cons (g : Cfg) (a : Nat) (path : List Nat) (last : Nat) (h : Chain g (a :: (path ++ [last]))) :
+    (g.get a).nexts = [hdOf path last] ∧ Chain g (path ++ [last]) := by
+  cases path with
+  | nil => simpa [Chain, hdOf] using h
+  | cons q qs => simpa [Chain, hdOf] using h
+
+theorem level_chain (g : Cfg) (item : Reg) (last : Nat)
+    (hlast : RegSet.mem (g.get last).node.genReg item = true) :
+    ∀ (path : List Nat) (visited : List Nat) (fuel : Nat), path.length + 1 ≤ fuel →
+      Chain g (path ++ [last]) → (path ++ [last]).Nodup →
+      (∀ x ∈ path ++ [last], visited.contains x = false) →
+      (∀ x ∈ path, RegSet.mem (g.get x).node.genReg item = false) →
+      firstUsage.level g item fuel [hdOf path last] visited =
+        [(readsSet (g.get last).node).find? (·.val == item)] := by
+  intro path
+  induction path with
+  | nil =>
+    intro visited fuel hf _ _ hv _
+    cases fuel with
+    | zero => omega
+    | succ n =>
+      have hvl : visited.contains last = false := hv last (by simp)
+      have hm : last ∉ visited := by simpa using hvl
+      unfold firstUsage.level
+      simp [hdOf, hm, insNat, hlast]
+  | cons p ps ih =>
+    intro visited fuel hf hch hnd hv hno
+    cases fuel with
+    | zero => simp at hf
+    | succ n =>
+      have hvp : visited.contains p = false := hv p (by simp)
+      have hnp : RegSet.mem (g.get p).node.genReg item = false := hno p (by simp)
+      have hnext := chain_cons g p ps last (by simpa using hch)
+      have hnd' : (ps ++ [last]).Nodup := by
+        have := hnd; simp only [List.cons_append, List.nodup_cons] at this; exact this.2
+      have hpn : p ∉ ps ++ [last] := by
+        have := hnd; simp only [List.cons_append, List.nodup_cons] at this; exact this.1
+      have hstep : firstUsage.level g item (n + 1) [hdOf (p :: ps) last] visited =
+          firstUsage.level g item n [hdOf ps last] (visited ++ [p]) := by
+        have hm : p ∉ visited := by simpa using hvp
+        conv => lhs; unfold firstUsage.level
+        simp [hdOf, hm, insNat, hnp, hnext.1]
+      rw [hstep]
+      apply ih (visited ++ [p]) n (by simp at hf ⊢; omega) hnext.2 hnd'
+      · intro x hx
+        have h1 := hv x (by simp only [List.cons_append, List.mem_cons]; exact Or.inr hx)
+        have h2 : x ≠ p := fun e => hpn (e ▸ hx)
+        simp only [List.contains_eq_mem, List.mem_append, List.mem_singleton, decide_eq_false_iff_not, not_or]
+        exact ⟨by simpa using h1, h2⟩
+      · intro x hx; exact hno x (by simp [hx])
+
+/-- **C05 (`firstUsage_at_distance`).** The forward search finds a use at any distance down a straight
+    line: if the nodes after `start` form a line of single successors none of which reads `r` until
+    `last`, which does, the search returns exactly the token of that read. -/
+theorem firstUsage_at_distance (g : Cfg) (start last : Nat) (path : List Nat) (r : Reg)
+    (hlen : path.length ≤ g.nodes.size)
+    (hch : Chain g (start :: (path ++ [last]))) (hnd : (start :: (path ++ [last])).Nodup)
+    (hno : ∀ x ∈ path, RegSet.mem (g.get x).node.genReg r = false)
+    (hlast : RegSet.mem (g.get last).node.genReg r = true) :
+    firstUsage g start r = [(readsSet (g.get last).node).find? (·.val == r)] := by
+  unfold firstUsage
+  have hnext := chain_cons g start path last hch
+  rw [hnext.1]
+  have hnd' := (List.nodup_cons.mp hnd).2
+  have hsn := (List.nodup_cons.mp hnd).1
+  apply level_chain g r last hlast path [start] _ (by omega) hnext.2 hnd'
+  · intro x hx
+    have : x ≠ start := fun e => hsn (e ▸ hx)
+    simpa using this
+  · exact hno
+
+/-- **use after call is reported at a distance**: the first instruction down the straight line after
+    the call that reads the clobbered register gets the diagnostic, however far it is -/
+theorem useAfterCall_reported_at_distance (g : Cfg) (i last : Nat) (path : List Nat) (hi : i < g.nodes.size)
+    (f : Func) (nm : W String) (r : Reg) (w : W Reg)
+    (hc : callsToFromCfg g (g.get i) = some (f, nm))
+    (hlen : path.length ≤ g.nodes.size)
+    (hch : Chain g (i :: (path ++ [last]))) (hnd : (i :: (path ++ [last])).Nodup)
+    (hno : ∀ x ∈ path, RegSet.mem (g.get x).node.genReg r = false)
+    (hgen : RegSet.mem (g.get last).node.genReg r = true)
+    (hread : (readsSet (g.get last).node).find? (·.val == r) = some w)
+    (hout : r ∈ RegSet.toList ((RegSet.diff callerSavedSet (funcReturns g f)) &&& (g.get i).liveOut)) :
+    ∃ x ∈ lintDeadValue g, x.code = "invalid-use-after-call" ∧ x.range = w.tok.range ∧ x.file = w.tok.file := by
+  refine ⟨{ onReg "InvalidUseAfterCall" w with site := some i }, ?_, ?_, rfl, rfl⟩
+  · unfold lintDeadValue
+    rw [List.mem_flatMap]
+    refine ⟨i, range_mem _ _ hi, ?_⟩
+    simp only [deadValueAt, hc]
+    rw [List.mem_map]
+    refine ⟨onReg "InvalidUseAfterCall" w, ?_, rfl⟩
+    unfold usageDiags
+    rw [List.mem_flatMap]
+    refine ⟨r, hout, ?_⟩
+    unfold usageDiag
+    rw [firstUsage_at_distance g i last path r hlen hch hnd hno hgen, hread]
+    simp
+  · show (lintDiag "InvalidUseAfterCall" w.tok.range w.tok.file w.tok.text []).code = "invalid-use-after-call"
+    exact code_of "InvalidUseAfterCall" "invalid-use-after-call" _ _ _ _ (by decide)
+
+/-- **a never-assigned register is reported at a distance**: the first instruction down the straight
+    line from the program entry that reads it gets the diagnostic -/
+theorem neverAssigned_reported_at_distance (g : Cfg) (i last : Nat) (path : List Nat) (hi : i < g.nodes.size)
+    (hpe : (g.get i).node.isProgramEntry = true) (r : Reg) (w : W Reg)
+    (hlen : path.length ≤ g.nodes.size)
+    (hch : Chain g (i :: (path ++ [last]))) (hnd : (i :: (path ++ [last])).Nodup)
+    (hno : ∀ x ∈ path, RegSet.mem (g.get x).node.genReg r = false)
+    (hgen : RegSet.mem (g.get last).node.genReg r = true)
+    (hread : (readsSet (g.get last).node).find? (·.val == r) = some w)
+    (hlive : r ∈ RegSet.toList (RegSet.diff (g.get i).liveIn programArgsSet)) :
+    ∃ x ∈ lintGarbageInput g, x.code = "invalid-use-before-assignment" ∧ x.range = w.tok.range ∧
+      x.file = w.tok.file := by
+  refine ⟨onReg "InvalidUseBeforeAssignment" w, ?_, code_of _ _ _ _ _ _ (by decide), rfl, rfl⟩
+  unfold lintGarbageInput
+  rw [List.mem_flatMap]
+  refine ⟨i, range_mem _ _ hi, ?_⟩
+  simp only [garbageAt, hpe, if_true]
+  unfold usageDiags
+  rw [List.mem_flatMap]
+  refine ⟨r, hlive, ?_⟩
+  unfold usageDiag
+  rw [firstUsage_at_distance g i last path r hlen hch hnd hno hgen, hread]
+  simp
+
+end Rva
